@@ -17,6 +17,7 @@ use crate::{
     Args, Sched,
 };
 use futures::{task::Context, Future, Stream};
+use opentelemetry::trace::TraceContextExt;
 use rand::{rngs::StdRng, Rng, SeedableRng};
 use serde_json::{json, Value};
 use std::{
@@ -48,6 +49,19 @@ thread_local! {
     static HEAD_DL: RefCell<i64> = const { RefCell::new(0) };
 }
 const CLAMP: i64 = 2_000_000_000;
+
+thread_local! {
+    /// `sub=otel-server`: only the server side (request streams and handlers) runs under an OpenTelemetry subscriber;
+    /// the head caller and the dispatches are untraced, as a client process without a subscriber would be.
+    static SERVER_DISPATCH: RefCell<Option<tracing::Dispatch>> = const { RefCell::new(None) };
+}
+fn under_server<R>(f: impl FnOnce() -> R) -> R {
+    let d = SERVER_DISPATCH.with(|d| d.borrow().clone());
+    match d {
+        Some(d) => tracing::dispatcher::with_default(&d, f),
+        None => f(),
+    }
+}
 fn rel_of(dl_ms: i64) -> i64 {
     (dl_ms - HEAD_DL.with(|h| *h.borrow())).clamp(-CLAMP, CLAMP)
 }
@@ -98,6 +112,8 @@ struct Ctl {
 #[derive(Clone)]
 struct HopServe {
     hop: usize,
+    /// nested calls are made with `context::current()` instead of the handler's context argument
+    usecur: bool,
     next: Option<ClientChannel<Req, Resp>>,
     ctl: Rc<RefCell<Ctl>>,
 }
@@ -136,7 +152,13 @@ impl Serve for HopServe {
         v["k"] = json!(self.hop);
         v["dl"] = json!(ms_of(ctx.deadline).clamp(-CLAMP, CLAMP));
         v["rel"] = json!(rel_of(ms_of(ctx.deadline)));
+        // what `context::current()` reports inside the handler (meaningful under an OpenTelemetry layer only)
+        let cur = context::current();
+        let mut cv = tc(&cur.trace_context);
+        cv["rel"] = json!(rel_of(ms_of(cur.deadline)));
+        v["cur"] = cv;
         emit("ChainHandlerStart", v);
+        let ctx = if self.usecur { cur } else { ctx };
         let mut guard = DropLog { hop: self.hop, finished: false };
         let out = match self.next {
             Some(next) => {
@@ -181,6 +203,9 @@ struct St {
     cflag: Arc<Flag>,
     ctl: Rc<RefCell<Ctl>>,
     head_dl: i64,
+    usecur: bool,
+    otel: bool,
+    own: bool,
 }
 
 // The clients of hops 2.. must be reachable when a handler is created; keep them here.
@@ -223,7 +248,7 @@ fn build(cfg: &Value) -> St {
     drop(_g);
     let head = clients[0].take();
     CLIENTS.with(|c| *c.borrow_mut() = clients);
-    St { clock, depth, hops, links, head, call: None, cflag: Flag::new("call", true), ctl, head_dl: 0 }
+    St { clock, depth, hops, links, head, call: None, cflag: Flag::new("call", true), ctl, head_dl: 0, usecur: cfg["usecur"].as_bool().unwrap_or(false), otel: false, own: cfg["own"].as_bool().unwrap_or(false) }
 }
 
 impl St {
@@ -317,18 +342,21 @@ impl St {
                 let mut cx = Context::from_waker(&waker);
                 let mut s = self.hops[k].stream.take().unwrap();
                 exec::log_set_task(&format!("s{}", k + 1));
-                let r: Result<Poll<Option<Item>>, String> = exec::catch(|| s.as_mut().poll_next(&mut cx));
+                let r: Result<Poll<Option<Item>>, String> = under_server(|| exec::catch(|| s.as_mut().poll_next(&mut cx)));
                 exec::log_set_task("env");
                 match r {
                     Ok(Poll::Ready(Some(Ok(ifr)))) => {
+                        // `own`: the handler holds the only handle of its downstream client (a service that dials per request),
+                        // so an aborted handler drops its nested call and the last handle in one step
+                        let own = self.own;
                         let next = if k + 1 < self.depth {
-                            CLIENTS.with(|c| c.borrow()[k + 1].clone())
+                            CLIENTS.with(|c| if own { c.borrow_mut()[k + 1].take() } else { c.borrow()[k + 1].clone() })
                         } else {
                             None
                         };
                         emit("ChainYield", json!({"k": k + 1, "id": ifr.get().id, "dl": ms_of(ifr.get().context.deadline).clamp(-CLAMP, CLAMP)}));
-                        let serve = HopServe { hop: k + 1, next, ctl: self.ctl.clone() };
-                        let fut: BoxFut<()> = Box::pin(ifr.execute(serve));
+                        let serve = HopServe { hop: k + 1, usecur: self.usecur, next, ctl: self.ctl.clone() };
+                        let fut: BoxFut<()> = under_server(|| Box::pin(ifr.execute(serve)) as BoxFut<()>);
                         self.hops[k].handlers.push((Some(fut), Flag::new(&format!("h{}", k + 1), true)));
                         flag.set.store(true, std::sync::atomic::Ordering::SeqCst);
                         self.hops[k].stream = Some(s);
@@ -349,7 +377,7 @@ impl St {
                     let mut cx = Context::from_waker(&waker);
                     let mut f = self.hops[k].handlers[i].0.take().unwrap();
                     exec::log_set_task(&format!("h{}", k + 1));
-                    match exec::catch(|| f.as_mut().poll(&mut cx)) {
+                    match under_server(|| exec::catch(|| f.as_mut().poll(&mut cx))) {
                         Ok(Poll::Ready(())) => emit("ChainHandlerExit", json!({"k": k + 1})),
                         Ok(Poll::Pending) => self.hops[k].handlers[i].0 = Some(f),
                         Err(m) => emit("Panic", json!({"who": format!("h{}", k + 1), "msg": m})),
@@ -458,7 +486,24 @@ impl St {
                 let ch = self.head.clone().unwrap();
                 emit("ChainStart", json!({"depth": self.depth, "dl": dl.clamp(-CLAMP, CLAMP), "far": dl > CLAMP, "tr": format!("{:x}", tr), "span": "7", "sampled": sampled,
                                           "delays": self.links.iter().map(|l| l.delay).collect::<Vec<_>>()}));
-                self.call = Some(Box::pin(async move { ch.call(ctx, "q".to_string()).await }));
+                if self.otel {
+                    // Under an OpenTelemetry layer Channel::call takes the trace context from the current span, not from
+                    // its argument: the caller's trace id and sampling decision are supplied as the remote parent of the
+                    // span the call is made in (exactly what a server does for its handlers).
+                    use tracing::Instrument;
+                    use tracing_opentelemetry::OpenTelemetrySpanExt;
+                    let span = tracing::info_span!("head");
+                    span.set_parent(opentelemetry::Context::new().with_remote_span_context(opentelemetry::trace::SpanContext::new(
+                        opentelemetry::trace::TraceId::from(ctx.trace_context.trace_id),
+                        opentelemetry::trace::SpanId::from(ctx.trace_context.span_id),
+                        if sampled { opentelemetry::trace::TraceFlags::SAMPLED } else { opentelemetry::trace::TraceFlags::default() },
+                        true,
+                        opentelemetry::trace::TraceState::default(),
+                    )));
+                    self.call = Some(Box::pin(async move { ch.call(ctx, "q".to_string()).await }.instrument(span)));
+                } else {
+                    self.call = Some(Box::pin(async move { ch.call(ctx, "q".to_string()).await }));
+                }
                 self.cflag.set.store(true, std::sync::atomic::Ordering::SeqCst);
             }
             "Settle" => {
@@ -506,12 +551,28 @@ pub fn run(a: &Args) -> Value {
     let mut scheds: Vec<Sched> = a.sched.as_deref().map(crate::load_scheds).unwrap_or_default();
     let mut rng = StdRng::seed_from_u64(a.seed ^ 0xC4A1);
     exec::LOG_WAKES.store(false, std::sync::atomic::Ordering::Relaxed);
+    let sub = a.opt_str("sub", "none");
+    if sub == "otel-server" {
+        use opentelemetry::trace::TracerProvider as _;
+        use tracing_subscriber::prelude::*;
+        let provider = opentelemetry_sdk::trace::TracerProvider::builder().build();
+        let tracer = provider.tracer("vh");
+        let d = tracing::Dispatch::new(tracing_subscriber::registry().with(tracing_opentelemetry::layer().with_tracer(tracer)));
+        SERVER_DISPATCH.with(|s| *s.borrow_mut() = Some(d));
+        // tracing-core caches a callsite's interest from the *current* default when only one dispatcher exists; a second
+        // (inert) dispatcher makes it consult every live dispatcher, as a process with a global default would.
+        std::mem::forget(tracing::Dispatch::new(tracing_subscriber::registry()));
+    } else {
+        crate::wire::install_subscriber(&sub);
+    }
     for i in 0..a.random {
         let depth = rng.gen_range(1..=3u64);
         let delays: Vec<u64> = (0..depth).map(|_| [0u64, 0, 1, 3][rng.gen_range(0..4)]).collect();
         // 3 and 30 years: beyond the one-year cap of the deadline timers
         let dl = [5i64, 20, 1000, 1000, 94_608_000_000, 946_080_000_000][rng.gen_range(0..6)];
-        let mut steps = vec![json!({"a":"Start","dl":dl,"tr":rng.gen_range(1..1000u64),"sampled":rng.gen_bool(0.5)})];
+        // an untraced caller (trace id 0) in a third of the scenarios whose server side is traced
+        let tr = if sub == "otel-server" && rng.gen_range(0..3) == 0 { 0 } else { rng.gen_range(1..1000u64) };
+        let mut steps = vec![json!({"a":"Start","dl":dl,"tr":tr,"sampled":rng.gen_bool(0.5)})];
         let n = rng.gen_range(1..10);
         let mut abandoned = false;
         let gated: Vec<u64> = if rng.gen_bool(0.4) { vec![rng.gen_range(1..=depth)] } else { vec![] };
@@ -541,14 +602,16 @@ pub fn run(a: &Args) -> Value {
             steps.push(json!({"a": "Settle"}));
             steps.push(if abandoned { json!({"a": "Settle"}) } else if rng.gen_bool(0.5) { json!({"a": "CompleteLeaf"}) } else { json!({"a": "Abandon"}) });
         }
-        scheds.push(Sched { id: format!("r{}", i), cfg: json!({"depth": depth, "delays": delays, "gated": gated}), steps, expect: None });
+        let usecur = sub.starts_with("otel") && rng.gen_bool(0.5);
+        scheds.push(Sched { id: format!("r{}", i), cfg: json!({"depth": depth, "delays": delays, "gated": gated, "usecur": usecur, "own": rng.gen_bool(0.4)}), steps, expect: None });
     }
     let mut index = vec![];
     for (si, s) in scheds.iter().enumerate() {
         let scn = si as u64 + 1;
         exec::log_begin_scenario(scn);
         let mut st = build(&s.cfg);
-        emit("Reset", json!({"id": s.id, "depth": st.depth}));
+        st.otel = sub == "otel";
+        emit("Reset", json!({"id": s.id, "depth": st.depth, "sub": sub}));
         for step in &s.steps {
             st.step(step);
         }
